@@ -27,7 +27,7 @@ pub const INFO: PropInfo = PropInfo {
         "scripts do not write the framing headers Content-Length / Transfer-Encoding / Connection directly (user's responsibility by the comment at response/mod.rs:151)",
         "1xx and 304 statuses are generated only without content",
     ],
-    expected_probes: &["c03.remove_then_set", "c03.short_write_fired", "c03.backpressure_fired", "c03.head_request", "c03.status_204", "c03.stream", "c03.drop_content", "c03.many_cycles", "c03.cookie", "c03.second_request_answered"],
+    expected_probes: &["c03.remove_then_set", "c03.short_write_fired", "c03.backpressure_fired", "c03.head_request", "c03.status_204", "c03.stream", "c03.drop_content", "c03.many_cycles", "c03.cookie", "c03.second_request_answered", "c03.status_changed_after_content", "c03.stream_then_204"],
 };
 
 pub const STD: [&str; 47] = [
@@ -81,6 +81,7 @@ pub struct Scenario {
 
 thread_local! {
     static SCRIPT: RefCell<Option<Scenario>> = const { RefCell::new(None) };
+    static STRAY: std::cell::Cell<usize> = const { std::cell::Cell::new(0) };
 }
 
 macro_rules! std_setters {
@@ -372,10 +373,20 @@ pub fn generate(_cfg: &RunCfg, _out: &mut Outcome) -> Scenario {
     };
     let bodyless = status == 304;
     let n = t::weighted(&[1, 3, 3, 3, 2, 2, 1, 1]);
-    let handler_ops = gen_ops(n, true, !bodyless, !bodyless && status != 204);
+    let mut handler_ops = gen_ops(n, true, !bodyless, !bodyless);
     let nb = t::weighted(&[4, 2, 2, 1]);
     let has_stream = handler_ops.iter().any(|o| matches!(o, Op::Stream(_)));
-    let back_ops = gen_ops(nb, false, !bodyless && !has_stream && t::chance(1, 3), false);
+    let mut back_ops = gen_ops(nb, false, !bodyless && !has_stream && t::chance(1, 3), false);
+    // the status may also be changed after the content was set (by the handler, or by a fang on the way out)
+    if !bodyless && t::chance(1, 5) {
+        let st = t::pick(&[204u16, 204, 200, 201, 404, 500]);
+        if t::chance(1, 2) || has_stream {
+            let at = t::range(0, handler_ops.len() as u64) as usize;
+            handler_ops.insert(at, Op::SetStatus(st));
+        } else {
+            back_ops.push(Op::SetStatus(st));
+        }
+    }
     let window = t::pick(&[1usize << 30, 1 << 30, 4096, 256, 17]);
     let read_max = t::pick(&[1usize << 16, 1 << 16, 100, 7]);
     let mut read_pause_ms = t::pick(&[0u64, 0, 1, 50]);
@@ -497,6 +508,7 @@ fn execute(sc: &Scenario, out: &mut Outcome) {
     out.scenario_hash = rt::fnv64(serde_json::to_string(sc).unwrap_or_default().as_bytes());
     hazards(sc, out);
     SCRIPT.with(|s| *s.borrow_mut() = Some(sc.clone()));
+    STRAY.with(|s| s.set(0));
     simcore::with(|w| {
         w.wall_base = sc.wall;
         w.wall_offset = 0;
@@ -514,6 +526,12 @@ fn execute(sc: &Scenario, out: &mut Outcome) {
     }
     if m.status == 204 {
         out.probe("c03.status_204");
+        if sc.handler_ops.iter().any(|o| matches!(o, Op::Stream(_))) {
+            out.probe("c03.stream_then_204");
+        }
+    }
+    if sc.handler_ops.iter().chain(sc.back_ops.iter()).any(|o| matches!(o, Op::SetStatus(_))) {
+        out.probe("c03.status_changed_after_content");
     }
     if matches!(m.body, Body::Stream(_)) {
         out.probe("c03.stream");
@@ -553,6 +571,11 @@ fn execute(sc: &Scenario, out: &mut Outcome) {
         let r = c.recv_paced(head, DEFAULT_TIMEOUT, read_max, pause * MS).await;
         let ok = r.as_ref().map(|r| r.framing != Framing::Undetermined).unwrap_or(false);
         o2.borrow_mut().0 = Some(r);
+        if ok {
+            // anything that arrives although the message is complete (nothing else was requested yet)
+            let _ = c.fill(1 << 16, 200 * MS).await;
+            STRAY.with(|s| s.set(c.buf.len()));
+        }
         if ok {
             // the end of the first message was determinable: a second exchange on the same connection must work
             c.send(b"GET /ping HTTP/1.1\r\nHost: sim\r\n\r\n", 0);
@@ -757,6 +780,12 @@ fn execute(sc: &Scenario, out: &mut Outcome) {
                 return;
             }
         }
+    }
+    // bytes after the end of the message
+    let stray = STRAY.with(|s| s.get());
+    if stray > 0 {
+        out.violate("framing", "bytes-after-message-end", format!("{stray} bytes followed the end of the {} response (status {}, framing {}): they will be taken for the next response; head: {head_shown:?}", if sc.head { "HEAD" } else { "GET" }, r.status, r.framing_kind()));
+        return;
     }
     // the second exchange
     match &obs.1 {
